@@ -567,10 +567,10 @@ func (g *G) Slice(arr X, lo, hi *X) X {
 
 // Match builds the MySQL full-text predicate MATCH(cols) AGAINST (search [mode words]) in the library's
 // representation: a binary AGAINST whose right operand is a call named AGAINST holding the search
-// expression and, if present, the mode words as one string.
+// expression and, if present, the mode words as one string.  The synthetic AGAINST call is not a function the
+// statement calls (placement record: only MATCH).
 func (g *G) Match(cols []X, search X, mode string) X {
 	m := g.Call("MATCH", cols, CallOpts{})
-	g.P.Functions["AGAINST"] = true
 	args := []*dump.T{search.T}
 	toks := cat(m.Toks, one(sym("AGAINST")), one(sym("(")), g.wrap(search, PrecPrimary))
 	for _, w := range strings.Fields(mode) {
@@ -587,7 +587,8 @@ func (g *G) Match(cols []X, search X, mode string) X {
 
 func (g *G) Interval(content string) X {
 	g.P.Forbidden[content] = true
-	return X{T: dump.N("IntervalExpression", "Value", content), Toks: cat(kw("INTERVAL"), one(sym("'"+content+"'"))), Prec: PrecPrimary}
+	lit := "'" + strings.ReplaceAll(strings.ReplaceAll(content, "\\", "\\\\"), "'", "''") + "'"
+	return X{T: dump.N("IntervalExpression", "Value", content), Toks: cat(kw("INTERVAL"), one(sym(lit))), Prec: PrecPrimary}
 }
 
 func (g *G) Star() X {
